@@ -4,10 +4,11 @@ import json, os, glob
 V = os.path.dirname(os.path.dirname(os.path.abspath(__file__)))
 checks = []
 claimed = set()
+READY = set(json.load(open(os.path.join(V, 'tools', 'ready_units.json'))))
 for mp in sorted(glob.glob(os.path.join(V, "units", "*", "meta.json"))):
     m = json.load(open(mp))
-    if not m.get("ready", False):
-        continue  # "ready" is set by hand once the unit is green on /repo and reviewed
+    if os.path.basename(os.path.dirname(mp)) not in READY:
+        continue  # tools/ready_units.json is edited by hand once a unit is green on /repo and reviewed
     unit = os.path.basename(os.path.dirname(mp))
     pid = m["property"]
     claimed.add(pid)
